@@ -24,14 +24,15 @@ fn big(v: &Value) -> u64 {
 
 fn addr(ip: &Value) -> CanonicalSocketAddr {
     let a = ip.as_array().expect("ip");
-    let n = a[1].as_u64().unwrap() as u8;
+    let n = a[1].as_u64().unwrap() as u16;
     let ip = match a[0].as_str().unwrap() {
-        "v4" => IpAddr::V4(Ipv4Addr::new(10, 0, 0, n)),
-        "map" => IpAddr::V6(Ipv4Addr::new(10, 0, 0, n).to_ipv6_mapped()),
-        "v6" => IpAddr::V6(Ipv6Addr::new(0xfd00, 0, 0, 0, 0, 0, 0, n as u16)),
+        "v4" => IpAddr::V4(Ipv4Addr::new(10, 0, (n >> 8) as u8, n as u8)),
+        "map" => IpAddr::V6(Ipv4Addr::new(10, 0, (n >> 8) as u8, n as u8).to_ipv6_mapped()),
+        // host numbers above 255 also differ in the upper address bytes
+        "v6" => IpAddr::V6(Ipv6Addr::new(0xfd00, n >> 8, 0, 0, n >> 8, 0, 0, n)),
         k => panic!("bad ip kind {}", k),
     };
-    CanonicalSocketAddr::new(SocketAddr::new(ip, 4000 + n as u16))
+    CanonicalSocketAddr::new(SocketAddr::new(ip, 4000 + n))
 }
 
 fn hex(id: ConnectionId) -> String {
